@@ -107,6 +107,9 @@ class Signal(np.lib.mixins.NDArrayOperatorsMixin):
 
         out_arr = tuple((i.data if isinstance(i, Signal) else i) for i in out)
 
+        if isinstance(kwargs.get("where"), Signal):
+            kwargs["where"] = kwargs["where"].data
+
         results = ufunc(*in_arr, out=out_arr, **kwargs)
 
         if results is NotImplemented:
